@@ -108,7 +108,7 @@ func genGotoPrograms(tier string) string {
 		state = state*6364136223846793005 + 1442695040888963407
 		return int((state >> 33) % uint64(n))
 	}
-	count := 400
+	count := 200
 	if tier == "thorough" {
 		count = 3000
 	}
